@@ -5,6 +5,9 @@ import json, os, subprocess, sys, tempfile, re
 ROOT = os.path.dirname(os.path.abspath(__file__))
 only = sys.argv[1:]
 res = {}
+RES = os.path.join(ROOT, "seeded", "RESULTS.json")
+if only and os.path.exists(RES):
+    res = json.load(open(RES))
 for d in sorted(os.listdir(os.path.join(ROOT, "seeded"))):
     p = os.path.join(ROOT, "seeded", d, "patch.diff")
     if not os.path.exists(p) or (only and d not in only):
